@@ -144,6 +144,19 @@ def generate(rng: random.Random, tier: str) -> dict:
                     "fault": fault,
                 }
             )
+        elif r < 0.555:
+            # several datasets at once; a later entry may be a source file that does not exist
+            ops.append(
+                {
+                    "op": "IMPORT_MAPPING",
+                    "names": rng.sample(["dataset_1", "ds2", "ds3"], k=rng.choice([2, 3])),
+                    "bad_last": rng.random() < 0.6,
+                    "allow_overwrite": rng.random() < 0.2,
+                    "ignore_existing": rng.random() < 0.7,
+                    "variant": rng.randint(0, 2),
+                    "fault": fault,
+                }
+            )
         elif r < 0.60:
             ops.append(
                 {
@@ -186,7 +199,7 @@ def generate(rng: random.Random, tier: str) -> dict:
         for op in ops:
             op["handle"] = rng.randrange(2)
     for op in ops:
-        if op["op"] in ("IMPORT_DATA", "GENERATE_MODEL", "GENERATE_PARAMETERS", "PROJECT_CREATE"):
+        if op["op"] in ("IMPORT_DATA", "IMPORT_MAPPING", "GENERATE_MODEL", "GENERATE_PARAMETERS", "PROJECT_CREATE"):
             # how the caller spells its booleans: real bools, numpy bools (result of a comparison) or ints
             op["flag_type"] = rng.choice(["bool", "bool", "numpy", "int"])
         if op["op"] == "PROJECT_OPTIMIZE" and rng.random() < 0.15:
@@ -617,7 +630,7 @@ class Run:
                     rec.probe("crash_restart")
                     handles = [self.open_project() for _ in handles]  # the process died: every handle is gone
                     project = handles[0]
-                if fired_here and kind in ("IMPORT_DATA", "GENERATE_MODEL", "GENERATE_PARAMETERS"):
+                if fired_here and kind in ("IMPORT_DATA", "IMPORT_MAPPING", "GENERATE_MODEL", "GENERATE_PARAMETERS"):
                     # the operator repairs the inputs a failed write may have damaged, so that a later
                     # Project.optimize failing is never the harness' own doing
                     self.repair_inputs(handles[0])
@@ -749,6 +762,45 @@ class Run:
             lambda: project.import_data(ds, dataset_name=op["name"], allow_overwrite=self.flag(op, "allow_overwrite"),
                                         ignore_existing=self.flag(op, "ignore_existing")),
         )
+
+    def op_import_mapping(self, op, project, before):
+        rec = self.rec
+        mapping = {name: make_dataset(op["variant"]) for name in op["names"]}
+        if op["bad_last"]:
+            mapping[op["names"][-1]] = os.path.join(self.sandbox, "no_such_source_file.nc")
+        targets = [f"proj/data/{n}.nc" for n in op["names"]]
+        existed = {t: before.get(t) for t in targets if t in before}
+        allow, ignore = self.flag(op, "allow_overwrite"), self.flag(op, "ignore_existing")
+        err = None
+        try:
+            project.import_data(mapping, allow_overwrite=allow, ignore_existing=ignore)
+        except SimCrash:
+            self.note_fault(op)
+            raise
+        except Exception as e:  # noqa: BLE001
+            err = e
+        crash = self.fs.end_of_op() if err is None else None
+        self.note_fault(op)
+        after = snapshot(self.sandbox)
+        rec.event(op="IMPORT_MAPPING", names=op["names"], bad_last=op["bad_last"], allow=bool(allow), ignore=bool(ignore),
+                  outcome=type(err).__name__ if err else "ok", fired=self.fs.fired)
+        rec.oracle_after_fault += 1
+        bad = self.changed(before, after, targets)
+        if bad:
+            rec.violate("C18/collateral-damage", "collateral", f"IMPORT_MAPPING {op['names']}: changed files other than its targets: {bad}")
+        elif not allow:
+            # without allow_overwrite an existing dataset file may never be modified or removed, whatever happens later
+            for t, h in existed.items():
+                if after.get(t) != h:
+                    rec.violate(
+                        "C18/existing-dataset-lost", "refusal",
+                        f"import_data({op['names']}, allow_overwrite=False, ignore_existing={bool(ignore)}) "
+                        f"{'removed' if t not in after else 'changed'} the existing {t} (outcome: {type(err).__name__ if err else 'ok'})",
+                    )
+                    break
+            rec.probe("mapping_import")
+        if crash is not None:
+            raise crash
 
     def op_generate_model(self, op, project, before):
         self.flagged_target_op(
